@@ -26,8 +26,8 @@ pub fn main() {
 /// For every defined encoding and six immediate probes: the bytes the real emitter produces.
 fn tmpl_all() {
   use crate::mem;
-  println!("fn rb={:x} wb={:x} ww={:x} rw={:x}", mem::memory_read_byte as usize, mem::memory_write_byte as usize,
-           mem::memory_write_word as usize, mem::memory_read_word as usize);
+  println!("fn rb={:x} wb={:x} ww={:x} rw={:x} pw={:x}", mem::memory_read_byte as usize, mem::memory_write_byte as usize,
+           mem::memory_write_word as usize, mem::memory_read_word as usize, mem::memory_push_word as usize);
   let probes: [(u8, u8); 6] = [(0x00, 0x00), (0xff, 0xff), (0x55, 0xaa), (0xa5, 0x3c), (0x01, 0x80), (0x7f, 0xfe)];
   let emitter = crate::emitter::Emitter::new(crate::jit::MEMPTR as *const mem::MemoryAreas);
   for (b0, cb) in all_encodings() {
